@@ -30,11 +30,13 @@ TIMEOUT_S = 5
 
 LEXEME = {"int": "1", "decimal": "1.5", "string": "'s'", "boolean": "TRUE", "pattern": "//a//"}
 VARIANTS = {
-    "int": ["0", "007", "0x1F", "0xff", "0b101", "1_000", "0x_f", "9007199254740993"],
-    "decimal": ["0.5", "1_0.2_5", "1."],
+    "int": ["0", "007", "0x1F", "0xff", "0b101", "1_000", "0x_f", "9007199254740993", "1_", "1__0",
+            "9" * 5000, "0x" + "f" * 5000, "0b" + "1" * 20000],
+    "decimal": ["0.5", "1_0.2_5", "1.", "1_.5", "1._5", "1." + "0" * 400, "9" * 400 + ".5"],
     "string": ["''", '"a\\"b"', "'x\\ny'", '"\\x41"', "'{x}'", "'l1\nl2'"],
     "boolean": ["FALSE"],
-    "pattern": ["//[//", "//(//", "//*//", "//a|b//", "///"],
+    "pattern": ["//[//", "//(//", "//*//", "//a|b//", "///", "//a{99999999999999999999}//",
+                "//" + "(" * 120 + "a" + ")" * 120 + "//", "//(?P<n>a)(?P<n>b)//", "//\\//"],
     "identifier:x": ["checkerlang_x", "y", "_p", "x1", "a.b"],
 }
 
@@ -66,6 +68,8 @@ def _classify(text):
     from ckl.lexer import SourcePos
     try:
         node = parse_script(text, "t.ckl")
+        if node is None or not hasattr(node, "evaluate"):
+            return ("notnode", repr(node)[:60])
         return ("node", type(node).__name__)
     except CklSyntaxError as e:
         ok = isinstance(e.msg, str) and len(e.msg) > 0
@@ -129,6 +133,8 @@ def judge(run, text, res, origin):
         return again
     if r[0] == "host":
         run.violation("host:" + text, f"host-exception: {r[1]} ({r[2]}) from parse_script({text!r})", case)
+    elif r[0] == "notnode":
+        run.violation("notnode:" + text, f"not-a-program: parse_script({text!r}) returned {r[1]}", case)
     elif r[0] in ("syntax-badpos", "syntax-nomsg"):
         run.violation("badsyntax:" + text, f"{r[0]}: syntax error without message/position for {text!r}: {r[1:]}", case)
     elif len(res) > 1 and res[1] != r:
@@ -181,7 +187,7 @@ def lexer_phase(run, cfgs):
 
 def parser_phase(run, cfgs):
     recs = {}
-    results = run_tlc_many([(("ParserMC", cfg), dict(timeout=3400, workers=4)) for cfg in cfgs], parallel=5)
+    results = run_tlc_many([(("ParserMC", cfg), dict(timeout=3400, workers=4)) for cfg in cfgs], parallel=6)
     for cfg, res in zip(cfgs, results):
         run.add_tlc(res, f"Parser PDA ({cfg})")
         for rec in res.records("PARSE"):
@@ -203,6 +209,30 @@ def edits(rng, toks, sigma, nsub):
     for p in range(n):
         for t in rng.sample(sigma, min(nsub, len(sigma))):
             out.append(toks[:p] + [t] + toks[p + 1:])
+    return out
+
+
+FRAMES = ["{A} ; {B}", "( {A} )", "[ {A} , {B} ]", "f ( {A} , {B} )", "do {A} ; {B} end", "if {A} then {B} else {A}",
+          "{A} = {B}", "[ {A} ] = {B}", "def x = {A}", "{A} !> f ( {B} )", "{A} [ {B} ]", "{A} -> x ( {B} )",
+          "<<< {A} => {B} >>>", "<< {A} , {B} >>", "fn ( x , y = {A} ) {B}", "for x in {A} do {B} end",
+          "while {A} do {B} end", "[ {A} for x in {B} ]", "[ {A} for x in {B} ] = {A}", "[ {A} for x in {B} if {A} ]",
+          "<< {A} for x in {B} also for y in {A} >>", "<<< {A} => {B} for x in {A} >>>", "{A} is not {B}", "{A} in {B}",
+          "{A} [ {B} to {A} ]", "{A} [ {B} to * ] = {A}", "do {A} catch {B} {A} finally {B} end", "return {A}", "error {A}",
+          "<* x = {A} , y ( a ) {B} *>", "{A} and not {B} or {A}", "- {A} * + {B}", "require {A} import [ x as y ]",
+          "def class x do def y = {A} ; def z ( ) {B} end", "{A} ( {B} ) ( {A} )", "def [ x , y ] = {A}",
+          "for [ x , y ] in entries {A} {B}", "x += {A}", "x [ {A} ] %= {B}", "x -> y /= {A}", "... {A}", "f ( ... {A} , x = {B} )",
+          "return ; {A}", "{A} ; return ;", "fn ( ) return ;", "do {A} ; return ; end"]
+
+
+def compose(rng, fragments, n):
+    """longer programs: short accepted programs plugged into every construct"""
+    out = set()
+    for _ in range(n):
+        fr = rng.choice(FRAMES)
+        a, b = rng.choice(fragments), rng.choice(fragments)
+        if rng.random() < 0.3:          # nest once more
+            a = rng.choice(FRAMES).replace("{A}", a).replace("{B}", rng.choice(fragments))
+        out.add(fr.replace("{A}", a).replace("{B}", b))
     return out
 
 
@@ -244,8 +274,8 @@ def run(run):
         if st == "lexerror" and r[0] != "syntax":
             run.drift("lexer-model-error-code-not", {"text": text, "code": r[:2]})
     # -- parser automaton
-    pcfgs = ["Parser_full2", "Parser_expr", "Parser_stmt", "Parser_lit", "Parser_req"] if quick else \
-            ["Parser_full3", "Parser_expr_t", "Parser_stmt_t", "Parser_lit_t", "Parser_req_t"]
+    pcfgs = ["Parser_full2", "Parser_expr", "Parser_stmt", "Parser_lit", "Parser_req", "Parser_empty"] if quick else \
+            ["Parser_full3", "Parser_expr_t", "Parser_stmt_t", "Parser_lit_t", "Parser_req_t", "Parser_empty_t"]
     precs = parser_phase(run, pcfgs)
     keys = list(precs)
     texts_of = {k: [tok_text({"ty": ty, "v": v}) for ty, v in k] for k in keys}
@@ -283,6 +313,16 @@ def run(run):
                 vtexts.add(render(None, base[:p] + [v] + base[p + 1:]))
         for e in edits(rng, toks, sigma_t, 6 if quick else 20):
             vtexts.add(render(e))
+    # longer programs composed of short accepted ones, and their one-token edits
+    frags = sorted({render(None, texts_of[k]) for k in accepted if 1 <= len(k) <= 4})
+    comp = compose(rng, frags, 6000 if quick else 120000)
+    for text in list(comp)[: (600 if quick else 6000)]:
+        toks = text.split(" ")
+        for p in range(len(toks)):
+            comp.add(" ".join(toks[:p] + toks[p + 1:]))
+            comp.add(" ".join(toks[:p] + [tok_text(rng.choice(sigma_t))] + toks[p + 1:]))
+    run.cov["composed_programs"] = len(comp)
+    vtexts |= comp
     vtexts -= set(by_text)
     for text, res in classify_all(sorted(vtexts)):
         judge(run, text, res, "edit-or-lexeme-variant")
